@@ -18,7 +18,7 @@ from vlib import core, sat
 from vlib import x_transform as xt
 from vlib.replay import generic_replay
 
-LEVEL = 'exploration'
+LEVEL = 'proof'
 
 BLOCK = ('xor', 'or', 'maj', 'eq', 'neq', 'eq_invert', 'one')
 THRESH = ('exact', 'atleast', 'atmost', 'anybut')
